@@ -198,6 +198,13 @@ func formatInput(v interface{}) (interface{}, error) {
 		return n, nil
 	case nil:
 		return nil, nil
+	case *decimal.Big:
+		// a nil *decimal.Big from the data or from a host function is null like any
+		// other nil pointer; as a number it would be dereferenced by every operator
+		if n == nil {
+			return nil, nil
+		}
+		return n, nil
 	default:
 		return n, nil
 	}
